@@ -915,6 +915,7 @@ func init() {
 			c.OverlayRules("C12")
 			// the account is stored under a passphrase the unlocker can still present: the configured default is never overwritten
 			c.ImmutableSliceConfig("C12.O4 usable-at-once/config-bytes", pkgProcess, "process service")
+			c.ParticipantsAsSent("C12") // every participant records the participant list the initiator sent
 		},
 		Explanation: "Claimed clauses only: a generation starts only below [n != 0], [t <= n] and [n/2 < t]; the threshold checked is the one sent in prepare, recorded in the session (never changed) and stored with the account; distributed generation reports success only past error-free, non-empty commit replies, pairwise key equality over all participants and a successful recover+verify of every window of t confirmation signatures against the returned key; every created account is added to the in-memory cache, whose lookups and listing consult the overlay. See DESIGN.md §5 C12.",
 		Trusted:     append([]string{"Shamir/BLS mathematics inside herumi (share consistency, threshold recovery) is not decided"}, commonTrusted...),
